@@ -451,6 +451,18 @@ class Parameters:
     def lang_context_lang(self):
         return self.parser_lang_stack[-1][1]
 
+    #   save and restore the rotation state of all maths replacements
+    #
+    def get_repl_rotation(self):
+        return [(lst, lst.copy())
+                    for s in self.parser_lang_settings.values()
+                    for lst in (s.math_repl_inline, s.math_repl_inline_vowel,
+                            s.math_repl_display, s.math_repl_display_vowel)]
+
+    def set_repl_rotation(self, state):
+        for lst, saved in state:
+            lst[:] = saved
+
     #   deactivate special macros and magic comments
     #
     def no_specials(self):
